@@ -77,6 +77,11 @@ def gen(rng, tier):
             for cut in range(len(s)):
                 yield from both(s[:cut])
         yield 'sx.tok %s %d' % (hexs([ord(c) for c in s]), rng.randrange(len(s) + 1))
+    # every octet value below 128 in every role: alone, inside a symbol, inside a decimal / hexadecimal numeral, between list elements
+    for x in range(1, 128):
+        for ctx in ([x], [0x61, x, 0x62], [0x31, x, 0x32], [0x23, 0x78, 0x31, x, 0x41], [0x28, 0x61, x, 0x62, 0x29], [0x28, x, 0x29], [0x23, x, 0x31], [x, 0x28, 0x29]):
+            yield from both(ctx)
+        yield 'sx.tok %s %d' % (hexs([0x61, x, 0x62]), x % 4)
     L = 6 if big else 5
     for n in range(0, L + 1):
         for t in itertools.product(ALPHA, repeat=n):
